@@ -64,6 +64,19 @@ def make_tree(rng, root, opts):
         with open(os.path.join(root, rel), 'wb') as f:
             f.write(data)
         desc[rel] = ('file', data)
+    if opts.get('fill'):
+        # a directory whose records fill their last sector exactly in one of the views: 45 names of
+        # five characters are 34+34+45*44 = 2048 bytes of Joliet records
+        os.makedirs(os.path.join(root, 'data'), exist_ok=True)
+        desc.setdefault('data', ('dir', None))
+        for k in range(rng.choice([44, 45, 45, 46])):
+            rel = 'data/f%02d.x' % k
+            payload = b'fill %d\n' % k
+            with open(os.path.join(root, rel), 'wb') as f:
+                f.write(payload)
+            desc[rel] = ('file', payload)
+        os.makedirs(os.path.join(root, 'zlast'), exist_ok=True)
+        desc.setdefault('zlast', ('dir', None))
     if opts.get('dups'):
         # duplicate detection works on content: files of one size that agree in their last block(s)
         # and differ earlier must stay different files
@@ -77,6 +90,15 @@ def make_tree(rng, root, opts):
             data = random.Random(100 + k).randbytes(rng.choice([1, 5000, 32768])) 
             data = (data + tail)[:n] if len(data) < n else data[:n]
             data = data[:len(data) - min(len(data), 7000)] + tail[-min(len(data), 7000):]
+            with open(os.path.join(root, rel), 'wb') as f:
+                f.write(data)
+            desc[rel] = ('file', data)
+        # files of one size (every size modulo 4) that differ in nothing but their last byte(s)
+        n_ = rng.choice([11, 40003, 4098, 77, 1000])
+        common_ = random.Random(12).randbytes(n_)
+        for k in range(2):
+            rel = 'lastbyte%d.bin' % k
+            data = common_[:-1] + bytes([65 + k])
             with open(os.path.join(root, rel), 'wb') as f:
                 f.write(data)
             desc[rel] = ('file', data)
@@ -119,6 +141,10 @@ def make_tree(rng, root, opts):
             if rel in desc:
                 continue
             target = rng.choice(['readme.txt', '../x', '/etc/passwd', 'a/b/c', '.', 'dir'])
+            if rng.random() < 0.4:
+                # long targets whose component boundaries fall near the end of an SL record
+                first = rng.choice([90, 97, 110, 126, 127, 128, 129, 130, 150, 200])
+                target = 'a' * first + '/' + 'b' * rng.choice([1, 30, 120]) + '/c'
             os.symlink(target, os.path.join(root, rel))
             desc[rel] = ('symlink', target)
     return desc
@@ -157,6 +183,7 @@ def option_set(rng, idx):
     opts['symlinks'] = rng.random() < 0.6
     opts['hide'] = rng.random() < 0.2
     opts['nobak'] = rng.random() < 0.15
+    opts['fill'] = rng.random() < 0.15
     opts['deep'] = bool(opts['rock']) and opts['level'] < 4 and rng.random() < 0.25
     return opts
 
